@@ -3962,6 +3962,10 @@ fn compile_pool() -> &'static Sender<CompileJob> {
 /// graceful Cranelift fallback either way.
 fn compile_or_spawn(src: String, async_mode: bool) -> AotCell {
     let cell = Arc::new(OnceLock::new());
+    #[cfg(veryl_verif)]
+    if async_mode && verif::intercept(&src, &cell) {
+        return cell;
+    }
     if async_mode {
         let job = CompileJob {
             src,
@@ -3973,6 +3977,107 @@ fn compile_or_spawn(src: String, async_mode: bool) -> AotCell {
         let _ = cell.set(m);
     }
     cell
+}
+
+/// Verification hook (compiled only with `--cfg veryl_verif`): owns the moment an
+/// asynchronously compiled module becomes visible.  While a gate is armed on the current
+/// thread, `compile_or_spawn(async)` compiles synchronously but keeps the module in a pending
+/// list; `on_dispatch` (called from `AotCWhole::try_dispatch{,_const}`) counts the dispatch
+/// attempts of each cell and publishes the i-th created cell right before its own
+/// `schedule[i]`-th attempt (`None` = never).
+#[cfg(veryl_verif)]
+pub mod verif {
+    use super::{AotCell, EmittedModule, compile_source};
+    use std::cell::RefCell;
+    use std::sync::Arc;
+
+    struct Pending {
+        cell: AotCell,
+        module: Option<EmittedModule>,
+        at: Option<u64>,
+        attempts: u64,
+    }
+
+    struct Gate {
+        schedule: Vec<Option<u64>>,
+        pending: Vec<Pending>,
+        compile_failures: usize,
+    }
+
+    thread_local! {
+        static GATE: RefCell<Option<Gate>> = const { RefCell::new(None) };
+    }
+
+    /// Arms the gate for this thread: the i-th async cell created from now on becomes ready
+    /// right before its own `schedule[i]`-th dispatch attempt (cells beyond the schedule never).
+    pub fn arm_async_gate(schedule: Vec<Option<u64>>) {
+        GATE.with(|g| {
+            *g.borrow_mut() = Some(Gate {
+                schedule,
+                pending: Vec::new(),
+                compile_failures: 0,
+            })
+        });
+    }
+
+    /// Disarms the gate; returns (dispatch attempts per created cell, compile failures).
+    pub fn disarm_async_gate() -> (Vec<u64>, usize) {
+        GATE.with(|g| {
+            g.borrow_mut()
+                .take()
+                .map(|g| {
+                    (
+                        g.pending.iter().map(|p| p.attempts).collect(),
+                        g.compile_failures,
+                    )
+                })
+                .unwrap_or((Vec::new(), 0))
+        })
+    }
+
+    pub(super) fn intercept(src: &str, cell: &AotCell) -> bool {
+        GATE.with(|g| {
+            let mut g = g.borrow_mut();
+            let Some(gate) = g.as_mut() else {
+                return false;
+            };
+            let at = gate.schedule.get(gate.pending.len()).copied().flatten();
+            let module = match compile_source(src) {
+                Ok(m) => Some(m),
+                Err(_) => {
+                    gate.compile_failures += 1;
+                    None
+                }
+            };
+            gate.pending.push(Pending {
+                cell: cell.clone(),
+                module,
+                at,
+                attempts: 0,
+            });
+            true
+        })
+    }
+
+    /// Counts one dispatch attempt of `cell` and publishes it if this is its scheduled attempt.
+    pub fn on_dispatch(cell: &AotCell) {
+        GATE.with(|g| {
+            let mut g = g.borrow_mut();
+            let Some(gate) = g.as_mut() else {
+                return;
+            };
+            for p in gate.pending.iter_mut() {
+                if Arc::ptr_eq(&p.cell, cell) {
+                    if p.at == Some(p.attempts)
+                        && let Some(m) = p.module.take()
+                    {
+                        let _ = p.cell.set(m);
+                    }
+                    p.attempts += 1;
+                }
+            }
+        });
+    }
 }
 
 /// Prepare the comb AOT-C eval handle.  Whether to attempt AOT-C at all is the
